@@ -109,9 +109,9 @@ class RTGen(gen.DocGen):
             if name == "level":
                 out[name] = self.rng.randint(1, 3)
             elif name == "src":
-                out[name] = self.rng.choice(["a.png", "b"])
+                out[name] = self.rng.choice(["a.png", "b", "x&amp;y.png", "q?a=1&copy=2", "&#38;lt;"])
             elif name == "title" and t.name == "image" and self.rng.random() < 0.3:
-                out[name] = "tt"
+                out[name] = self.rng.choice(["tt", "a &amp; b", "&gt;"])
         return out or None
 
     def marks_for(self, parent_type):
@@ -124,7 +124,7 @@ class RTGen(gen.DocGen):
             mt = self.schema.marks[nm]
             if not parent_type.allows_mark_type(mt):
                 continue
-            at = {"href": rng.choice(["h1", "h2&x"])} if nm == "link" else None
+            at = {"href": rng.choice(["h1", "h2&x", "u?a&amp;b", "&lt;&#60;", "&quot;q"])} if nm == "link" else None
             ms = mt.create(at).add_to_set(ms)
         return ms
 
